@@ -255,6 +255,106 @@ let hs_confirmed = function
 let status_after_handshake r =
   if hs_confirmed r then NTransferring else NStandby
 
+type rn_read =
+| RdOk
+| RdGarbled
+| RdBlocked
+
+(** val rn_read_line : bool -> bool -> rn_read **)
+
+let rn_read_line reader_win framed_win =
+  if reader_win
+  then if framed_win then RdOk else RdBlocked
+  else if framed_win then RdGarbled else RdOk
+
+type 'a rn_line = { ln_win : bool; ln_body : 'a option }
+
+type rn_out_msg =
+| OAct of n_wire_action
+| OCfg of n_wire_config
+| OFail
+
+type rn_hs2 = { h2_to_server : (rn_out_msg * rn_str) list;
+                h2_to_client : (rn_out_msg * rn_str) list;
+                h2_status : rn_status; h2_cli_win : bool }
+
+(** val rn_nl_to_client : rn_env -> bool -> bool -> rn_str **)
+
+let rn_nl_to_client e cli_win tunnel =
+  if (&&) ((||) cli_win e.ne_win_server) (negb tunnel)
+  then relayneg_to_client_win_nl
+  else relayneg_to_client_nl
+
+(** val rn_nl_to_server : rn_env -> bool -> bool -> rn_str **)
+
+let rn_nl_to_server e tunnel is_act =
+  if (&&) e.ne_win_server ((||) (negb tunnel) is_act)
+  then relayneg_to_server_win_nl
+  else relayneg_to_server_nl
+
+(** val rn_reader_from_client : rn_env -> bool -> bool **)
+
+let rn_reader_from_client e tunnel =
+  (&&) e.ne_win_server (negb tunnel)
+
+(** val rn_reader_from_server : rn_env -> bool -> bool -> bool **)
+
+let rn_reader_from_server e cli_win tunnel =
+  (&&) ((||) cli_win e.ne_win_server) (negb tunnel)
+
+(** val rn_hs2_fail :
+    rn_env -> bool -> bool -> (rn_out_msg * rn_str) list -> rn_hs2 **)
+
+let rn_hs2_fail e cli_win tunnel sent =
+  { h2_to_server =
+    (app sent ((OFail, (rn_nl_to_server e tunnel false)) :: []));
+    h2_to_client = ((OFail, (rn_nl_to_client e cli_win tunnel)) :: []);
+    h2_status = NStandby; h2_cli_win = cli_win }
+
+(** val rn_handshake2 :
+    rn_env -> bool -> n_wire_action rn_line -> n_wire_config rn_line option
+    -> rn_hs2 **)
+
+let rn_handshake2 e cli_win0 act cfg =
+  match rn_read_line (rn_reader_from_client e false) act.ln_win with
+  | RdOk ->
+    (match act.ln_body with
+     | Some wa ->
+       let a = rewrite_action (decode_action_into relay_action_init wa) in
+       let tun = a.na_tunnel in
+       let cw = list_eqb a.na_newline relayneg_client_win_newline in
+       let sent = ((OAct (encode_action a)),
+         (rn_nl_to_server e tun true)) :: []
+       in
+       if negb a.na_confirm
+       then { h2_to_server = sent; h2_to_client = []; h2_status = NStandby;
+              h2_cli_win = cw }
+       else (match cfg with
+             | Some cl ->
+               (match rn_read_line (rn_reader_from_server e cw tun) cl.ln_win with
+                | RdOk ->
+                  (match cl.ln_body with
+                   | Some wc ->
+                     (match relay_config e tun wc with
+                      | Some wc' ->
+                        { h2_to_server = sent; h2_to_client = (((OCfg wc'),
+                          (rn_nl_to_client e cw tun)) :: []); h2_status =
+                          NTransferring; h2_cli_win = cw }
+                      | None -> rn_hs2_fail e cw tun sent)
+                   | None -> rn_hs2_fail e cw tun sent)
+                | RdGarbled -> rn_hs2_fail e cw tun sent
+                | RdBlocked ->
+                  { h2_to_server = sent; h2_to_client = []; h2_status =
+                    NHandshaking; h2_cli_win = cw })
+             | None ->
+               { h2_to_server = sent; h2_to_client = []; h2_status =
+                 NHandshaking; h2_cli_win = cw })
+     | None -> rn_hs2_fail e cli_win0 false [])
+  | RdGarbled -> rn_hs2_fail e cli_win0 false []
+  | RdBlocked ->
+    { h2_to_server = []; h2_to_client = []; h2_status = NHandshaking;
+      h2_cli_win = cli_win0 }
+
 (** val rn_has_marker : coq_N list list -> coq_N list -> bool **)
 
 let rn_has_marker ms c =
